@@ -129,6 +129,9 @@ pub mod query;
 pub mod registry;
 pub mod resource;
 pub mod system;
+#[cfg(brood_verif)]
+#[doc(hidden)]
+pub mod verif;
 pub mod world;
 
 #[doc(hidden)]
